@@ -43,10 +43,22 @@ def main():
     except (core.Machinery, tlc.TLCError) as e:
         print("MACHINERY-FAILURE property=%s %s" % (pid, e))
         rc = 2
-    except Exception:
+    except Exception as e:
         traceback.print_exc()
-        print("MACHINERY-FAILURE property=%s unexpected exception in harness" % pid)
-        rc = 2
+        fr = core.library_frame(e)
+        if fr is not None and not args.replay:
+            # the implementation raised inside the (unguarded) set-up of the check, which succeeds on the unchanged tree
+            os.makedirs(core.REPLAYS, exist_ok=True)
+            path = os.path.join(core.REPLAYS, "%s-setup-%s.json" % (pid, core.digest(traceback.format_exc())))
+            with open(path, "w") as f:
+                json.dump(dict(property=pid, signature="%s/library-raised-in-setup/%s:%s" % (pid, os.path.basename(fr.filename), fr.name),
+                               detail=traceback.format_exc()[-3000:], case=dict(setup=True)), f, indent=1)
+            print("VIOLATION property=%s replay=%s" % (pid, path))
+            print("  cell=%s/library-raised-in-setup :: %s: %s at %s:%d" % (pid, type(e).__name__, str(e)[:300], fr.filename, fr.lineno))
+            rc = 1
+        else:
+            print("MACHINERY-FAILURE property=%s unexpected exception in harness" % pid)
+            rc = 2
     finally:
         if not args.keep_build and not os.environ.get("VERIF_KEEP_BUILD"):
             shutil.rmtree(os.path.join(tlc.BUILD, pid), ignore_errors=True)
